@@ -36,6 +36,8 @@ Rewrite rules (closed list, every application logged with source line):
   N3  `if let P = E && C {A} else {B}` -> `match E { P if C => {A} _ => {B} }`
   N4  `E.map_or(LIT, |p| B)` -> `(match E { Some(p) => B, None => LIT })` (definition of Option::map_or)
   N5  `E.map(|p| B).unwrap_or(LIT)` -> `(match E { Some(p) => B, None => LIT })`
+  N6  iterator chains `X.iter().any(|p| B)` and `X.iter().filter(|p| F).map(|q| E).collect()` ->
+      explicit `for` loops (definitions of the adapters for side-effect-free closures)
   A   arm focus (see //@arms)
   P   prefix focus (//@cut before=/re/): the function's statements from the anchor (a top-level
       statement) to the end are replaced by `return self.vx_rest()`, a stub with no contract
@@ -719,6 +721,113 @@ def rule_N5(src, lo, hi, enabled):
     return out
 
 
+def _closure_parts(toks, src, open_i):
+    """toks[open_i] is `(` of a call whose single argument is a closure `|PAT| BODY`; returns (pat, body, close_i)"""
+    c = match_close(toks, open_i)
+    if toks[open_i + 1].text != "|":
+        raise VxError("N6: call argument is not a closure")
+    p2 = open_i + 2
+    while toks[p2].text != "|":
+        p2 += 1
+    pat = src[toks[open_i + 1].end:toks[p2].start].strip()
+    be = c - 1
+    if toks[be].text == ",":
+        be -= 1
+    body = src[toks[p2 + 1].start:toks[be].end]
+    return pat, body, c
+
+
+def _bind(pat, item, by_ref):
+    """let-bindings equivalent to matching closure parameter pattern `pat` against `item`
+    (by_ref: the closure receives `&item`, as Iterator::filter's predicate does)"""
+    pat = pat.strip()
+    amp = pat.startswith("&")
+    if amp:
+        pat = pat[1:].strip()
+    if re.fullmatch(r"[a-z_][A-Za-z0-9_]*", pat):
+        if pat == "_":
+            return ""
+        if by_ref and not amp:
+            return "let %s = &%s; " % (pat, item)
+        if (by_ref and amp) or (not by_ref and not amp):
+            return "let %s = %s; " % (pat, item)
+        return "let %s = *%s; " % (pat, item)
+    m = re.fullmatch(r"\((.*)\)", pat)
+    if not m:
+        raise VxError("N6: unsupported closure pattern %r" % pat)
+    outs = []
+    for idx, comp in enumerate([x.strip() for x in m.group(1).split(",") if x.strip()]):
+        camp = comp.startswith("&")
+        name = comp[1:].strip() if camp else comp
+        if name == "_":
+            continue
+        if not re.fullmatch(r"[a-z_][A-Za-z0-9_]*", name):
+            raise VxError("N6: unsupported closure pattern %r" % pat)
+        comp_expr = "%s.%d" % (item, idx)
+        # matching a tuple pattern through a reference binds components by reference
+        refd = by_ref and not amp
+        if refd and not camp:
+            outs.append("let %s = &%s; " % (name, comp_expr))
+        elif (refd and camp) or (not refd and not camp):
+            outs.append("let %s = %s; " % (name, comp_expr))
+        else:
+            outs.append("let %s = *%s; " % (name, comp_expr))
+    return "".join(outs)
+
+
+def desugar_iter_chains(text, log, relfile, line):
+    """Rule N6 (innermost first, repeated to a fixpoint):
+         X.iter().any(|p| B)                          -> { let mut __aK = false; for __iK in X.iter() { let p = __iK; if B { __aK = true; } } __aK }
+         X.iter().filter(|p| F).map(|q| E).collect()  -> { let mut __cK = Vec::new(); for __iK in X.iter() { <p := &__iK> if F { <q := __iK> __cK.push(E); } } __cK }
+       These are the definitions of Iterator::any / filter / map / collect::<Vec<_>> for side-effect-free
+       closures (checked syntactically: no assignment, push, insert, send, await inside the closures)."""
+    k = 0
+    for _round in range(50):
+        toks = code_toks(tokenize(text))
+        n = len(toks)
+        cands = []
+        for i, t in enumerate(toks):
+            if t.kind != "ident" or i < 4 or toks[i - 1].text != ".":
+                continue
+            # ... . iter ( ) . NAME (
+            if not (toks[i - 2].text == ")" and toks[i - 3].text == "(" and toks[i - 4].text == "iter" and toks[i - 5].text == "."):
+                continue
+            if i + 1 >= n or toks[i + 1].text != "(":
+                continue
+            rs = _recv_start(toks, i - 5)
+            if t.text == "any":
+                pat, body, c = _closure_parts(toks, text, i + 1)
+                cands.append(("any", toks[rs].start, toks[c].end, text[toks[rs].start:toks[i - 5].start], pat, body, None, None))
+            elif t.text == "filter":
+                pat, body, c = _closure_parts(toks, text, i + 1)
+                if c + 3 < n and toks[c + 1].text == "." and toks[c + 2].text == "map" and toks[c + 3].text == "(":
+                    pat2, body2, c2 = _closure_parts(toks, text, c + 3)
+                    if c2 + 4 < n and toks[c2 + 1].text == "." and toks[c2 + 2].text == "collect" and toks[c2 + 3].text == "(" and toks[c2 + 4].text == ")":
+                        cands.append(("fmc", toks[rs].start, toks[c2 + 4].end, text[toks[rs].start:toks[i - 5].start], pat, body, pat2, body2))
+        if not cands:
+            return text
+        # innermost: a candidate containing no other candidate
+        cands.sort(key=lambda c: c[2] - c[1])
+        kind, s0, e0, recv, pat, body, pat2, body2 = cands[0]
+        if _round == 0:
+            # side-effect check on the ORIGINAL closure bodies (later rounds see generated temporaries)
+            for cnd in cands:
+                for b in (cnd[5], cnd[7] or ""):
+                    if SIDE_EFFECT_RE.search(b) or re.search(r"[^=!<>]=[^=>]", b.replace("==", "")):
+                        raise VxError("N6: closure body may have side effects: %r" % b[:80])
+        recv = recv.strip()
+        if kind == "any":
+            repl = "{\nlet mut __a%d = false;\nfor __i%d in %s.iter() {\n%s\nif %s {\n__a%d = true;\n}\n}\n__a%d\n}" % (
+                k, k, recv, _bind(pat, "__i%d" % k, False), body, k, k)
+        else:
+            repl = "{\nlet mut __c%d = Vec::new();\nfor __i%d in %s.iter() {\n%s\nif %s {\n%s\n__c%d.push(%s);\n}\n}\n__c%d\n}" % (
+                k, k, recv, _bind(pat, "__i%d" % k, True), body, _bind(pat2, "__i%d" % k, False), k, body2, k)
+        log.append(dict(rule="N6", file=relfile, line=line, before=re.sub(r"\s+", " ", text[s0:e0])[:160], after=repl[:160]))
+        text = text[:s0] + repl + text[e0:]
+        k += 1
+    raise VxError("N6: did not reach a fixpoint")
+
+
 def rule_A(src, lo, hi, keep_re):
     """Arm focus on the outermost `match` of the function body whose arms are event variants:
     every arm whose pattern does not match keep_re gets the body `{ return vx_other_arm(self) }`."""
@@ -927,7 +1036,7 @@ def loop_headers(body):
 # --------------------------------------------------------------------------------------
 # vspec processing
 # --------------------------------------------------------------------------------------
-ALL_RULES = ["D1", "D2", "D3", "D5", "R1", "N1", "N2", "N3", "N4", "N5"]
+ALL_RULES = ["D1", "D2", "D3", "D5", "R1", "N1", "N2", "N3", "N4", "N5", "N6"]
 KV_RE = re.compile(r'(\w+)=("([^"]*)"|\S+)')
 
 
@@ -1146,6 +1255,11 @@ class Gen:
 
         fn_line = line_of(src, loc["fn_tok"])
         lo, hi = loc["body_open"], loc["body_close"]
+        orig_fn_text = src[loc["start"]:hi]
+        if "N6" in enabled and re.search(r"\.iter\(\)\s*\.(any|filter)\(", src[lo:hi]):
+            new_body = desugar_iter_chains(src[lo:hi], self.log, rel, fn_line)
+            src = src[:lo] + new_body + src[hi:]
+            hi = lo + len(new_body)
         sig = src[loc["start"]:lo]
         sig_text = clean_signature(sig, enabled, self.log, rel, fn_line)
         # restricted visibilities (pub(crate), pub(super), pub(in ..)) are meaningless in the single file
@@ -1261,7 +1375,7 @@ class Gen:
         # assemble with origin tracking
         src_origin = dict(kind="src", file=rel, line=fn_line, fn=newname or name)
         self.functions.append(dict(kind="fn", name=name, as_name=newname or name, file=rel, line=fn_line,
-                                   impl=loc["impl_header"], sha256=hashlib.sha256(src[loc["start"]:hi].encode()).hexdigest()[:16],
+                                   impl=loc["impl_header"], sha256=hashlib.sha256(orig_fn_text.encode()).hexdigest()[:16],
                                    dropped_arms=dropped_arms))
         self.emit(sig_text.rstrip(), src_origin)
         fq = newname or name
